@@ -23,7 +23,7 @@ ASSUMPTIONS = [
     "mirrors about cell 0 are checked with halo=0 and compared in-band; mirrors about the window centre are checked with any halo whenever the mirrored axis has an odd padded size with clamped modes (symmetric retained set => exact); transpose and similarity with any halo",
     "shooting growth bounded by exp(13.8) by construction",
 ]
-TOLERANCES = {"all": "(1e-12 + 256*eps*G) * max|field| (spectral comparisons: * max|spectrum|)"}
+TOLERANCES = {"all": "(1e-12 + 4096*eps*G) * max|field| (spectral comparisons: * max|spectrum|)"}
 BUDGET = {"quick": dict(examples=350, shards=1), "thorough": dict(examples=2000, shards=16)}
 
 
@@ -86,6 +86,7 @@ def check_case(case):
                         halo=halo, precision="double")
         return sut.as3d(c), sut.as3d(f)
 
+    fs0, cs0 = (0.0, 0.0) if fpm else tol.natural_scales(q0, z, prof, bg)  # floors for dispersion fields only
     c0, f0 = run(q0, prof, dom, modes, (im, jm), 0.0)
 
     # ---- mirrors (halo = 0), compared inside the retained band
@@ -102,7 +103,7 @@ def check_case(case):
         for name, a, b in (("conc", c0, back(cm)), ("flux", f0, back(fm))):
             A = np.fft.fft2(a, axes=(1, 2)) * band
             B = np.fft.fft2(b, axes=(1, 2)) * band
-            scale = max(tol.maxabs(np.fft.fft2(a, axes=(1, 2))), 1e-300)
+            scale = max(tol.maxabs(np.fft.fft2(a, axes=(1, 2))), (cs0 if name == "conc" else fs0) * nx * ny, 1e-300)
             err = tol.maxabs(A - B)
             if not err <= rel * scale:
                 out.bad(f"{axis}-mirror: {name} of the mirrored problem is not the mirrored {name} "
@@ -129,14 +130,14 @@ def check_case(case):
         cm, fm = run(q0[:, ::-1].copy(), (-u, v, Kx, Ky, Kz), dom, mh, (nx - 1 - im, jm), hv)
         for name, a, b in (("conc", ch, cm[:, :, ::-1]), ("flux", fh, fm[:, :, ::-1])):
             err = tol.maxabs(a - b)
-            if not err <= rel * max(tol.maxabs(a), abs(bg)):
+            if not err <= rel * max(tol.maxabs(a), abs(bg), cs0 if name == "conc" else fs0):
                 out.bad(f"x-mirror about the window centre with halo {hv}: {name} differs by {err:.3e} (padded {nxe}x{nye}, modes {mh})")
     if nye % 2 == 1 and eff[1] == nye:
         out.label("flip-y-with-halo")
         cm, fm = run(q0[::-1, :].copy(), (u, -v, Kx, Ky, Kz), dom, mh, (im, ny - 1 - jm), hv)
         for name, a, b in (("conc", ch, cm[:, ::-1, :]), ("flux", fh, fm[:, ::-1, :])):
             err = tol.maxabs(a - b)
-            if not err <= rel * max(tol.maxabs(a), abs(bg)):
+            if not err <= rel * max(tol.maxabs(a), abs(bg), cs0 if name == "conc" else fs0):
                 out.bad(f"y-mirror about the window centre with halo {hv}: {name} differs by {err:.3e} (padded {nxe}x{nye}, modes {mh})")
 
     # ---- similarity in lengths: x, y, z, halo, meas_pt and K times s
@@ -151,7 +152,7 @@ def check_case(case):
     same_pad = pads(dom, hv) == pads((dom[0] * s, dom[1] * s), None if hv is None else hv * s)
     if same_pad:
         for name, a, b in (("conc", ch, cs), ("flux", fh, fs)):
-            scale = max(tol.maxabs(a), abs(bg))
+            scale = max(tol.maxabs(a), abs(bg), cs0 if name == "conc" else fs0)
             err = tol.maxabs(a - b)
             if not err <= rel * scale:
                 out.bad(f"length similarity: {name} changes by {err:.3e} (> {rel * scale:.3e}) when all lengths and K are multiplied by {s}")
@@ -162,10 +163,10 @@ def check_case(case):
     a_ = case["a"]
     ca, fa = run(q0, (a_ * u, a_ * v, a_ * Kx, a_ * Ky, a_ * Kz), dom, mh, (im, jm), hv, bg_=bg / a_)
     err = tol.maxabs(fh - fa)
-    if not err <= rel * tol.maxabs(fh):
+    if not err <= rel * max(tol.maxabs(fh), fs0):
         out.bad(f"velocity similarity: flux changes by {err:.3e} when winds and K are multiplied by {a_}")
     err = tol.maxabs(ch - a_ * ca)
-    if not err <= rel * max(tol.maxabs(ch), abs(bg)):
+    if not err <= rel * max(tol.maxabs(ch), abs(bg), cs0):
         out.bad(f"velocity similarity: conc is not divided by {a_} (difference {err:.3e})")
 
     aniso = tol.maxabs(Kx - Ky) > 0
